@@ -619,6 +619,20 @@ func (tb *TB) CmpBV(op string, a, b *Term) *Term {
 			return tb.Bool(false)
 		}
 	}
+	switch op {
+	case "bvult":
+		return tb.Not(tb.CmpBV("bvule", b, a))
+	case "bvugt":
+		return tb.Not(tb.CmpBV("bvule", a, b))
+	case "bvuge":
+		return tb.CmpBV("bvule", b, a)
+	case "bvslt":
+		return tb.Not(tb.CmpBV("bvsle", b, a))
+	case "bvsgt":
+		return tb.Not(tb.CmpBV("bvsle", a, b))
+	case "bvsge":
+		return tb.CmpBV("bvsle", b, a)
+	}
 	// lengths: compare as mathematical integers (values are in [0, 2^31) by construction;
 	// a signed constant is interpreted as signed)
 	if la, lb, ok := tb.liftPairSigned(op, a, b); ok {
@@ -670,7 +684,20 @@ func (tb *TB) IntCmp(op string, a, b *Term) *Term {
 		}
 		return tb.Bool(r)
 	}
+	// canonical form: everything is expressed with <= (so that a condition and its negation spelled
+	// differently share one atom for the known-literal cache)
+	switch op {
+	case "<":
+		return tb.Not(tb.IntCmp("<=", b, a))
+	case ">":
+		return tb.Not(tb.IntCmp("<=", a, b))
+	case ">=":
+		return tb.IntCmp("<=", b, a)
+	}
 	// str.len x >= 0 etc.
+	if a.IsConst() && b.Op == "str.len" && int64(a.U) <= 0 {
+		return tb.Bool(true)
+	}
 	if a.Op == "str.len" && b.IsConst() {
 		y := int64(b.U)
 		if (op == ">=" && y <= 0) || (op == ">" && y < 0) {
